@@ -166,3 +166,24 @@ func (j *Jail) Snap() Snapshot {
 	s, _ := Snap(j.Root)
 	return s
 }
+
+// OpenUnder lists the process's open descriptors whose target lies under dir (read from
+// /proc/self/fd). After a call has returned, nothing it created or examined may still be open:
+// a descriptor per created file is a leak that only shows once the process runs out of them.
+func OpenUnder(dir string) []string {
+	ents, err := os.ReadDir("/proc/self/fd")
+	if err != nil {
+		return nil
+	}
+	var out []string
+	for _, e := range ents {
+		t, err := os.Readlink("/proc/self/fd/" + e.Name())
+		if err != nil {
+			continue
+		}
+		if t == dir || strings.HasPrefix(t, dir+"/") {
+			out = append(out, t)
+		}
+	}
+	return out
+}
